@@ -175,8 +175,14 @@ func propMismatch(t *rapid.T) {
 	if p == nil {
 		t.Fatalf("mismatched lengths %d/%d were not refused", ns, np)
 	}
-	if !bytes.Equal(rcv.UncompressedBytes(), known.Uncompressed()) {
-		t.Fatal("receiver changed by a refused call")
+	// The property only says the call is refused; what it leaves in the receiver is not specified, as long
+	// as it is still a valid object (C18).  An unchanged receiver is what the current code gives.
+	enc := rcv.UncompressedBytes()
+	if _, ok := ref.DecodePoint(enc); !ok {
+		t.Fatalf("receiver is not a valid point after a refused call: %x", enc)
+	}
+	if !bytes.Equal(enc, known.Uncompressed()) {
+		stat.Note("mismatch", "a refused call changed its (still valid) receiver")
 	}
 }
 
